@@ -56,3 +56,6 @@
 (define-fun boolTextFalse ((s String)) Bool (or (= s "false") (= s "f") (= s "no") (= s "n") (= s "0") (= s "0.0")))
 ; hexadecimal digit (as a byte / code point)
 (define-fun isHexB ((c Int)) Bool (or (and (<= 48 c) (<= c 57)) (and (<= 97 c) (<= c 102)) (and (<= 65 c) (<= c 70))))
+(declare-fun upperS (String) String)
+; the collection distinct() yields, named (defined by impl.Distinct's contract)
+(declare-fun distinctS (Slice_Any) Slice_Any)
